@@ -208,3 +208,73 @@ func VerifC14_LogLineParsers() {
 	(&CefLogParser{}).ParseEntry(line)
 	verif.Reach("parsed")
 }
+
+// VerifC20_SeveralChains: a log that holds a finalized chain followed by a second chain (key reset in between, as a
+// service restart or ResetChain produces). The honest log verifies; duplicating the first entry of either chain,
+// removing the end-of-chain entry of the first chain, or moving the second chain in front of the first is reported.
+func VerifC20_SeveralChains() {
+	key := verif.Bytes("key", 4)
+	cef := verif.Choose("cef", 0, 1) == 1
+	end := []byte(`msg="` + EndOfAuditLogChainMessage + `" ` + EndOfAuditLogChainSuffix)
+	var plain *PlaintextFormatterHook
+	var cefHook *CefFormatterHook
+	if cef {
+		cefHook, _ = NewCefFormatterHook(key)
+	} else {
+		plain, _ = NewPlaintextFormatterHook(key)
+	}
+	emit := func(l []byte) string {
+		buf := &bytes.Buffer{}
+		buf.Write(l)
+		if cef {
+			buf.WriteString(" \n")
+			if cefHook.PostFormat(nil, buf) != nil {
+				return ""
+			}
+		} else {
+			buf.WriteString("\n")
+			if plain.PostFormat(nil, buf) != nil {
+				return ""
+			}
+		}
+		b := buf.Bytes()
+		return string(b[:len(b)-1])
+	}
+	a0 := emit(verifLine("a0", 2))
+	aEnd := emit(end)
+	if cef {
+		cefHook.SetCryptoKey(key)
+	} else {
+		plain.SetCryptoKey(key)
+	}
+	b0 := emit(verifLine("b0", 2))
+	b1 := emit(verifLine("b1", 2))
+	bEnd := emit(end)
+	if a0 == "" || aEnd == "" || b0 == "" || b1 == "" || bEnd == "" {
+		return
+	}
+	verif.Reach("written")
+	var log []string
+	mode := verif.Choose("mode", 0, 4)
+	switch mode {
+	case 0:
+		log = []string{a0, aEnd, b0, b1, bEnd}
+	case 1: // first entry of the later chain twice
+		log = []string{a0, aEnd, b0, b0, b1, bEnd}
+	case 2: // first entry of the first chain twice
+		log = []string{a0, a0, aEnd, b0, b1, bEnd}
+	case 3: // end of the first chain removed
+		log = []string{a0, b0, b1, bEnd}
+	case 4: // chains in the other order
+		log = []string{b0, b1, bEnd, a0, aEnd}
+	}
+	err := verifVerify(key, cef, log)
+	if mode == 0 {
+		verif.Assert(err == nil, "honest-log-with-two-chains-verifies")
+	} else if mode == 4 {
+		// each chain is complete and starts afresh: the order of whole chains is not authenticated by design
+		verif.Reach("reordered-chains-checked")
+	} else {
+		verif.Assert(err != nil, "tampering-detected")
+	}
+}
